@@ -37,8 +37,31 @@ func TestDescribe(t *testing.T) {
 	}
 	t.Logf("discard=%q danger=%q classes=%v", w.discard, w.danger, w.cls)
 	if w.danger == "" {
-		o, tgt, uerr, up := s.execute()
-		t.Logf("actual: err=%v panic=%v tsm=%#v", o.err, o.panicV, o.tsm)
-		t.Logf("actual: unmarshal err=%v panic=%v target=%#v", uerr, up, tgt)
+		ss, err := newSession(&s)
+		if err != nil {
+			t.Fatal(err)
+		}
+		defer ss.shutdown()
+		for r := 0; r <= len(s.Rounds); r++ {
+			if r > 0 {
+				if f := ss.advance(s.Rounds[r-1]); f != nil {
+					t.Logf("round %d: %v", r, f)
+				}
+				_, exps := s.expectAll(s.tableAt(r))
+				for _, e := range exps {
+					t.Logf("round %d expect %-4s typed=%#v str=%#v res=%+v", r, e.name, e.typed, e.str, e.res)
+				}
+			}
+			v := ss.resolve()
+			t.Logf("round %d actual: err=%v panic=%v tsm=%#v", r, v.o.err, v.o.panicV, v.o.tsm)
+			t.Logf("round %d actual: unmarshal err=%v panic=%v target=%#v", r, v.direct.err, v.direct.panic, v.direct.tgt)
+			if s.Nest {
+				t.Logf("round %d actual: sub1 err=%v panic=%v target=%#v", r, v.sub1.err, v.sub1.panic, v.sub1.tgt)
+				t.Logf("round %d actual: sub2 err=%v panic=%v target=%#v", r, v.sub2.err, v.sub2.panic, v.sub2.tgt)
+			}
+			if v.o.err != nil {
+				break
+			}
+		}
 	}
 }
